@@ -56,7 +56,7 @@ def family : String → List (Args → Args)
   | "twice" => [id, fun a => { a with kw := mapVals (· ++ ['2']) a.kw }]
   | _ => []
 
-theorem flatten_singletons {α} (l : List α) : (l.map fun x => [x]).flatten = l := by
+theorem flatten_singletons {α β} (f : α → β) (l : List α) : (l.map fun x => [f x]).flatten = l.map f := by
   induction l with
   | nil => rfl
   | cons a r ih => simp [ih]
@@ -64,12 +64,12 @@ theorem flatten_singletons {α} (l : List α) : (l.map fun x => [x]).flatten = l
 /-- a top-level def sees exactly what the decorator passed – positionals AND keywords – with the context of the call -/
 theorem toplevel_forwards (ts : List (Args → Args)) (context : Nat) (args : Args) :
     decorateToplevel (wrapper ts) (fun c a => [(c, a)]) context args = ts.map fun t => (context, t args) := by
-  simp only [decorateToplevel, wrapper, List.map_map]
-  exact flatten_singletons _
+  simp only [decorateToplevel, wrapper]
+  exact flatten_singletons _ _
 
 theorem inline_forwards (ts : List (Args → Args)) (context : Nat) (args : Args) :
     decorateInline context (wrapper ts) (fun a => [(context, a)]) args = ts.map fun t => (context, t args) := by
-  simp only [decorateInline, wrapper, List.map_map]
-  exact flatten_singletons _
+  simp only [decorateInline, wrapper]
+  exact flatten_singletons _ _
 
 end MakoModel.Codegen.Deco
